@@ -621,7 +621,7 @@ func c06Mutate(c *fw.Ctx, idx int) {
 		}
 		k := r.Range(1, 3)
 		for i := 0; i < k; i++ {
-			const fills = " \t\n\r 0(A)  ,"
+			const fills = " \t\n\r 0(A)  ,\xa0\x85\xa0"
 			fill := fills[r.Intn(len(fills))]
 			run := bytes.Repeat([]byte{fill}, []int{29, 30, 31, 32, 33, 59, 60, 61, 62, 100, 257}[r.Intn(11)]+r.Intn(2))
 			if r.Chance(1, 12) {
